@@ -11,6 +11,28 @@ CLAIMED = {
     },
 }
 
+def _c(technique, level, ref, oracle=False):
+    return {"technique": technique, "level": level, "note": BASE_NOTE, "ref": ref, "oracle": oracle}
+
+
+CLAIMED.update({
+    "C02": _c("static analysis: compiler-evaluated Dragonbox/Grisu tables and magic constants vs exact definitions",
+              "All 78+619 Dragonbox cached powers, the k-range reachable from every finite exponent (the bound the unchecked table index relies on), modular inverses, magic divisors, the five floor_log* multiplier triples (exact on their callers' ranges), and under `compact` the 87 Grisu cached powers with their exponent formula and search-loop coverage are proved equal to their mathematical definitions. Round-trip / shortest-ness of the interval arithmetic itself is not decided.",
+              "§4 C02", True),
+    "C03": _c("static analysis: digit tables, digit-count tables, 128-bit division constants, step tables, size constants vs exact definitions; dispatch/width pairing on MIR",
+              "Every DIGIT_TO_BASE{r}_SQUARED table and get_table arm, Lemire's digit-count table (checked at every boundary of every log2 class), the power-of-ten tables and fast_log10 multiplier, every (d, factor, shift) of the 128-bit division (d = radix^u64_step, reciprocal valid for all n < 2^128), min/max step tables, FORMATTED_SIZE constants, jeaiii re-slice constants and signed->unsigned width pairing are decided in every feature configuration. The digit-extraction arithmetic is not decided.",
+              "§4 C03", True),
+    "C05": _c("static analysis: per-radix tables/limits vs exact definitions; key agreement between split_radix and the power tables; debug_assert beliefs vs admitted formats",
+              "For every radix 2..36: power tables exact on the index ranges the limits allow, exponent/mantissa/power limits and max_digits within their exact bounds, every base that reaches Bigint::pow factored into (odd, shift) and served by an explicit table row whose value is odd^step, all Bellerophon tables within 1 ulp with exact exponents and covering the f64 range; the same-base belief of the fast path is checked against the formats the entry validation admits.",
+              "§4 C05", True),
+    "C12": _c("static analysis: flag-to-getter pairing and error-under-flag path conditions on MIR",
+              "Each NumberFormat::<F>::NAME reads exactly flags::NAME (or equals STANDARD's bit without `format`), each getter returns its own const, every flag-specific error in parse_number/parse_*sign is constructed only on paths where that flag's getter tested true and is still constructed somewhere, '-' produces a negative only under T::IS_SIGNED, and every syntax flag is read by the parsers it concerns. Grammar equivalence over all strings is not decided.",
+              "§4 C12"),
+    "C18": _c("static analysis: bit-layout algebra on evaluated constants; builder/flag/rebuild pairing; constraint-table and validation-before-use dominance rules on MIR",
+              "The flag part of build->rebuild round-trip is proved (31 distinct single-bit flags, each ORed in from its own field and read back into it; 6 byte fields with matching MASK/SHIFT); format_error_impl has a correctly polarised rejecting branch with the documented error for every documented constraint in both cfg variants; is_valid_radix accepts exactly the feature set's radices; build_strict returns only on Success; every *_with_options back-end call is dominated by is_valid() (and is_valid_options_punctuation for float parsers).",
+              "§4 C18"),
+})
+
 NOT_APPLICABLE = {
     "C06": "Exactness of power-of-two radix float output is arithmetic on runtime exponents (calculate_shl, scale_sci_exp); no table or guard whose truth implies it beyond the digit tables already covered under C03.",
     "C07": "Generic-radix float output is native floating-point digit generation with carry back-tracking; every clause (valid digits, <2048 ulp, exact integers) is a statement about runtime values.",
